@@ -241,3 +241,73 @@ func genC18(r *rng, thorough bool, emit func(FlowScenario)) {
 		emit(sc)
 	}
 }
+
+// batchseq: single batch nodes on the deterministic paths — sequential (c=0), one worker (c=1), and
+// c>=2 in continue mode without cancellation — all positions of the first failing item, both modes,
+// every prep payload shape, and a cancellation injected inside every executed callback.
+func genBatchSeq(r *rng, thorough bool, emit func(FlowScenario)) {
+	t := &tokGen{r: r}
+	maxN := 8
+	if thorough {
+		maxN = 16
+	}
+	mk := func(cfg BatchCfg, bs BatchScript) FlowScenario {
+		return FlowScenario{Kind: "canceled", Ctx0: "live", Nodes: []NodeDef{{ID: 0, Batch: &cfg}},
+			LeafScripts: []LeafScript{}, BatchScripts: []BatchScript{bs}, Steps: []Step{{Run: ip(0)}}}
+	}
+	for n := 0; n <= maxN; n++ {
+		for _, conc := range []int{0, 1, 2, 4} {
+			for _, stop := range []bool{false, true} {
+				if conc >= 2 && stop {
+					continue
+				}
+				for f := -1; f < n; f++ { // position of the first failing item
+					for _, budget := range []int{1, 2} {
+						t.next, t.errN = r.intn(30), r.intn(20)
+						shape := r.pick([]string{"results", "results", "anys", "typed"})
+						cfg := BatchCfg{Budget: budget, Fb: r.pick([]string{"pass", "custom"}), Conc: conc, Stop: stop,
+							ExecS: r.pick([]string{"res", "any"}), HasPost: true, Shape: shape, Build: r.pick([]string{"option", "builder"})}
+						bs := BatchScript{N: 0, V: 0, Post: "=done"}
+						bs.Prep = batchItemsPrep(t, shape, n)
+						for i := 0; i < n; i++ {
+							var m uint = (1 << uint(budget+1)) - 1
+							if i == f {
+								m = 0
+							} else if i > f && f >= 0 && r.chance(30) {
+								m = uint(r.next()) & ((1 << uint(budget+1)) - 1)
+							}
+							bs.Items = append(bs.Items, t.itemScript(m, budget+1, r.chance(40), cfg.ExecS))
+						}
+						if bs.Items == nil {
+							bs.Items = []ItemScript{}
+						}
+						sc := mk(cfg, bs)
+						if conc <= 1 && (thorough || n <= 5) {
+							sc.Kind = r.pick([]string{"canceled", "deadline"})
+							withInjections(sc, "cancel", emit)
+							if f == -1 {
+								d := sc
+								d.Ctx0 = "done"
+								emit(d)
+							}
+						} else {
+							emit(sc)
+						}
+					}
+				}
+			}
+		}
+	}
+	// single value / nil payloads and the empty batch
+	for _, shape := range []string{"single", "nil", "results", "anys"} {
+		for _, conc := range []int{0, 1, 3} {
+			t.next, t.errN = r.intn(30), r.intn(20)
+			cfg := BatchCfg{Budget: 2, Fb: "pass", Conc: conc, ExecS: "res", HasPost: true, Shape: shape, Build: "builder"}
+			n := 1
+			if shape == "nil" || shape == "results" {
+				n = 0
+			}
+			emit(mk(cfg, randBatchScript(t, 0, 0, &cfg, n, 30, "=done")))
+		}
+	}
+}
